@@ -59,7 +59,7 @@ type Opts struct {
 	// shape
 	MaxEntries      int // entries per block: 1..MaxEntries (default 3)
 	MaxTx           int // transactions per entry: 0..MaxTx (default 3)
-	EmptyBlockOneIn int // 1/k blocks have a single entry without transactions (0 = never)
+	EmptyBlockOneIn int // 1/k blocks are empty: one entry without transactions, or no entry at all (0 = never)
 	ExactTx         int // if >0: total number of transactions is forced to exactly this (spread over blocks)
 	MultiFrameOneIn int // 1/k transactions get multi-frame metadata (0 = never)
 	// SplitTxData: multi-frame transactions also get their *transaction* payload split (the server
@@ -458,7 +458,9 @@ func Generate(path string, o Opts) (*Model, error) {
 		nEntries := 1 + rng.Intn(o.MaxEntries)
 		emptyBlock := oneIn(rng, o.EmptyBlockOneIn)
 		if emptyBlock {
-			nEntries = 1
+			// half of the empty blocks have one entry without transactions, the other half no entry at all
+			// (a block with no child object of its own)
+			nEntries = rng.Intn(2)
 		}
 		var plan []int // tx per entry
 		if exactPlan != nil {
